@@ -57,11 +57,20 @@ func vStream(n int) {
 	}
 
 	start := 0
+	// like io.Copy, the caller hands over the same scratch buffer on every Write and refills it afterwards:
+	// the Writer may neither keep the slice nor change it
+	scratch := make([]byte, n+2)
 	emit := func(end int) {
-		p := stream[start:end]
+		chunk := stream[start:end]
+		p := scratch[:len(chunk)]
+		copy(p, chunk)
 		k, err := w.Write(p)
 		vrt.Assert("write-reports-all", k == len(p) && err == nil)
-		for _, b := range p {
+		vrt.Assert("callers-slice-not-modified", string(p) == string(chunk))
+		for i := range scratch {
+			scratch[i] = '#' // the caller reuses its buffer
+		}
+		for _, b := range chunk {
 			if b == '\n' {
 				want = append(want, string(cur))
 				cur = nil
